@@ -555,7 +555,7 @@ def _n7(ctx, R):
           "update; N3 every key touching the EDIF identifier tables is lower-cased; N4 update/remove/no_conflict/lookup handle the same "
           "key set per policy; N5 update deletes the old key before inserting; N6 the watched key set agrees across handlers and lookup "
           "registration; N7 every traversal of the containment schema covers the five relations with the right triple and the fallback "
-          "scan never stops early; N7b nothing attaches named children without the add notification. Decides that the index is told, "
+          "scan never stops early; N7b nothing attaches named children without the add notification; N8 every write of an element's data is announced; N9 the policy's legality test and the EDIF writer's validity test accept the same class of plain identifiers (first character, body). Decides that the index is told, "
           "checks first and normalises alike; does not decide that refusals happen exactly when a duplicate would arise.")
 def check_c10(ctx, R):
     R.rule("N8", "every write of an element's data dictionary in spydrnet/ir is preceded by the dictionary_* dispatch the name index listens to")
